@@ -22,9 +22,12 @@ const (
 	KKeepalive
 	KClose
 	KUnknown
+	// KUnframeable: bytes that cannot be framed (length field below the header size, or a
+	// packet that is never completed); the tunnel must end, nothing of it is processed
+	KUnframeable
 )
 
-var kindName = [...]string{"HS", "TC", "TA", "CC", "DATA", "KA", "CLOSE", "UNK"}
+var kindName = [...]string{"HS", "TC", "TA", "CC", "DATA", "KA", "CLOSE", "UNK", "UNFRAMEABLE"}
 
 const (
 	HostAllowed = iota
@@ -98,8 +101,14 @@ type TunPlan struct {
 	// CloseAfter >= 0: the client drops its connections after sending that many packets.
 	CloseAfter int
 	CloseReset bool
-	// KeepHostOpen: host does not close after its script
+	// Stream: deliveries towards the gateway on this tunnel's connections may split and
+	// coalesce write boundaries (TCP re-segmentation)
 	Stream bool
+	// Segs: if set, the packet byte stream is sent as these [from,to) pieces, one transport
+	// message (ws message / HTTP chunk) each, instead of one packet per message
+	Segs [][2]int
+	// WSFrames: split each ws message into that many frames (continuation frames)
+	WSFrames int
 }
 
 type Tun struct {
@@ -108,12 +117,46 @@ type Tun struct {
 	Hosts  []*env.Host
 	step   int // transport setup progress
 	next   int
+	seg    int
+	stream []byte
+	ends   []int
 	closed bool
 	Err    string
 }
 
 func (t *Tun) SentAll() bool {
+	if t.Plan.Segs != nil {
+		return (t.Client.Ready && t.seg >= len(t.Plan.Segs)) || t.closed || t.Err != ""
+	}
 	return (t.Client.Ready && t.next >= len(t.Plan.Pkts)) || t.closed || t.Err != ""
+}
+
+// sendSeg sends the next piece of the re-segmented packet stream and records which
+// packets have now been sent completely.
+func (t *Tun) sendSeg(c *Ctx) {
+	p, cl := t.Plan, t.Client
+	if t.stream == nil {
+		for _, pk := range p.Pkts {
+			t.stream = append(t.stream, pk.Bytes...)
+			t.ends = append(t.ends, len(t.stream))
+		}
+	}
+	sg := p.Segs[t.seg]
+	t.seg++
+	piece := t.stream[sg[0]:sg[1]]
+	if p.Transport == "ws" && p.WSFrames > 1 && len(piece) >= p.WSFrames {
+		var fr []int
+		for i := 0; i < p.WSFrames; i++ {
+			fr = append(fr, len(piece)/p.WSFrames)
+		}
+		cl.SendWire(codec.WSMessage(piece, fr, cl.Mask()))
+	} else {
+		cl.SendRaw(piece)
+	}
+	for t.next < len(p.Pkts) && t.ends[t.next] <= sg[1] {
+		cl.Sent = append(cl.Sent, env.SentPkt{Seq: c.S.Seq, Index: t.next, Bytes: p.Pkts[t.next].Bytes})
+		t.next++
+	}
 }
 
 func clientIP(addr string) string {
@@ -158,6 +201,12 @@ func StartTunnels(c *Ctx, plans []*TunPlan) []*Tun {
 			if p.CloseAfter >= 0 && t.next >= p.CloseAfter {
 				return true
 			}
+			if p.Stream && p.Transport == "legacy" && cl.In.Peer.InFlight() > 0 && t.next == 0 && t.seg == 0 {
+				return false // the preamble must have been consumed as its own segment
+			}
+			if p.Segs != nil {
+				return t.seg < len(p.Segs)
+			}
 			return t.next < len(p.Pkts)
 		}, func() {
 			if !cl.Ready {
@@ -172,6 +221,17 @@ func StartTunnels(c *Ctx, plans []*TunPlan) []*Tun {
 				} else {
 					c.S.Count("fault.conn.eof")
 				}
+				return
+			}
+			if p.Stream {
+				for _, e := range []*sim.End{cl.WS, cl.In} {
+					if e != nil {
+						e.Peer.Stream = true
+					}
+				}
+			}
+			if p.Segs != nil {
+				t.sendSeg(c)
 				return
 			}
 			cl.SendPacket(p.Pkts[t.next].Bytes)
@@ -282,6 +342,7 @@ type TunVerdict struct {
 	Channel      int    // index of the accepted channel-create, -1 if none
 	ChannelHost  string
 	DialExpected bool
+	Unframeable  bool
 	Accepted     []string // steps the model accepted, for samples
 	Reached      int      // furthest state
 }
@@ -549,6 +610,9 @@ func CheckTunnel(c *Ctx, t *Tun, mc ModelCfg, prop string) *TunVerdict {
 			}
 		case KUnknown:
 			optional = true
+		case KUnframeable:
+			dead = true
+			v.Unframeable = true
 		}
 		if state > v.Reached {
 			v.Reached = state
